@@ -219,9 +219,12 @@ def _scopes():
             if isinstance(n, ast.Assign) and len(n.targets) == 1 and isinstance(n.targets[0], ast.Name):
                 env.append((n.lineno, n.targets[0].id, n.value))
         div = clip = None
+        fors = [n for n in ast.walk(loop) if isinstance(n, ast.For) and n is not loop
+                and any(isinstance(c, ast.Call) and classify_call(c) == ".divGrad" for c in ast.walk(n))]
+        if fors:
+            inner = max(fors, key=lambda n: n.lineno)      # the innermost loop around `.grad.div_`
+            div = _scope_of(inner.iter, env, inner.lineno)
         for n in ast.walk(loop):
-            if isinstance(n, ast.For) and any(isinstance(c, ast.Call) and classify_call(c) == ".divGrad" for c in ast.walk(n)):
-                div = _scope_of(n.iter, env, n.lineno)
             if isinstance(n, ast.Call) and classify_call(n) == ".clip" and n.args:
                 clip = _scope_of(n.args[0], env, n.lineno)
         if div is None or clip is None:
